@@ -343,13 +343,35 @@ def gen(ctx):
     # GeneralNames: every choice alone, mixed lists, IA5 rule, lookup by choice
     for ch in range(0, 10):
         for v in (b"\x30\x03\x02\x01\x05", b"example.org", b"a", bytes(130), b"caf\xc3\xa9"):
-            add("gnames %d:%s %d" % (ch, v.hex(), ch), "gnames:choice%d:%s" % (ch, "ia5" if all(c < 128 for c in v) else "non-ia5"))
+            add("gnames %d:%s %d" % (ch, v.hex(), ch), ("general_name:constructed-choice-written-with-primitive-tag" if ch in (0, 3, 4, 5) else "gnames:choice%d:%s" % (ch, "ia5" if all(c < 128 for c in v) else "non-ia5")))
     for i in range(12 if not thorough else 120):
         items = ["%d:%s" % (r.choice([1, 2, 6, 7, 8]), bytes(r.choice(b"abcdefgh.") for _ in range(r.range(1, 40))).hex()) for _ in range(r.range(1, 5))]
         add("gnames %s %d" % (",".join(items), r.choice([1, 2, 6, 7, 8, 4])), "gnames:list:primitive-choices")
         items2 = items + ["%d:3000" % r.choice([0, 3, 4, 5])]
         r.shuffle(items2)
-        add("gnames %s %d" % (",".join(items2), r.choice([1, 4, 6])), "gnames:list:with-constructed-choice")
+        add("gnames %s %d" % (",".join(items2), r.choice([1, 4, 6])), "general_name:constructed-choice-written-with-primitive-tag")
+    # payload codecs of the extensions (encode with the library, decode with the library, every field compared, absent optionals
+    # must be reported as absent) and PEM wrappers
+    for kind in ("other_name", "edi_party_name", "display_text", "notice_reference", "user_notice", "policy_qualifier_info", "policy_information", "policy_mapping",
+                 "attribute", "general_subtree", "name_constraints", "policy_constraints", "issuing_distribution_point", "uri_as_general_names", "explicit_directory_name",
+                 "gn_registered_id", "gn_other_name", "gn_edi_party_name", "stubs"):
+        for v in (0, 1):
+            cell = "payload:%s:%d" % (kind, v)
+            if kind in ("gn_other_name", "gn_edi_party_name"):
+                cell = "general_name:constructed-choice-written-with-primitive-tag"
+            elif (kind, v) in (("edi_party_name", 0), ("user_notice", 0)):
+                cell = "payload:absent-optional-outputs-unset"
+            add("payload %s %d" % (kind, v), cell)
+    for days in (-1, 0, 1, 2, 365, 3652, 3653, 3654, 100000):
+        add("payload validity_add_days %d" % days, "payload:validity_add_days:%s" % ("ok" if 1 <= days <= 3653 else "out-of-range"))
+    for kind in ("cert", "certs", "req", "bysubject", "newcert", "newcerts", "newreq", "newreqfp"):
+        add("pemrt %s" % kind, "pemrt:" + kind)
+    # text renderers on an object that carries every extension the builders compose; identifier <-> name tables
+    for kind in ("cert", "crl", "req"):
+        add("printall %s" % kind, "printall:" + kind)
+    for tab in ("name_type", "ext_id", "qualifier_id", "cert_policy_id", "key_purpose", "access_method", "crl_entry_ext_id", "crl_ext_id",
+                "crl_reason", "key_usage", "revoke_reason_flag", "version", "key_purpose_text"):
+        add("names %s" % tab, "names:" + tab)
     # --- every single-bit modification of an issued object must fail verification
     step = 3 if not thorough else 1
     flips = []
@@ -522,7 +544,7 @@ def finish(ctx):
         "the model composes and extracts at SEQUENCE level (TLV with DER definite lengths, positional layout with optional fields by tag); names, extensions, attributes and revoked lists are opaque already-encoded components, as in the C API; the primitive codecs inside them (strings, OIDs, times) belong to C14",
         "the TBS bytes of every issued object are compared byte-for-byte with the model's composition (including INTEGER normalisation, UTCTime/GeneralizedTime selection and the civil-date conversion); validity times and version numbers printed by the model are the supplied ones (the time codec round trip itself is C14's theorem)",
         "signatures are real SM2 on the harness side (scripted entropy); in the theorems they are an abstract sign/check pair; 'fails under another key / any modified bit' is proved only under the premise named in C15_other_key_rejected_partial and otherwise observed (complete single-bit neighbourhood of sampled objects, every 3rd byte in the quick tier)",
-        "extension builders are compared at API level (build, locate by OID, decode, compare with the vector); their DER payloads are not modelled here",
+        "extension builders are compared at API level (build, locate by OID, decode, compare with the vector) and, for the Extension wrapper, byte for byte (ext_emit); the nested payload structures (OtherName, EDIPartyName, NoticeReference, UserNotice, PolicyQualifierInfo, PolicyInformation, PolicyMapping, Attribute, GeneralSubtree, NameConstraints, PolicyConstraints, IssuingDistributionPoint, GeneralNames of one URI, explicit DirectoryString) are compared byte for byte with the generic positional-record encoder of the model on fixed field values (op payload); the text renderers and the identifier/name tables are exercised with an oracle only (ops printall, names)",
         "CRL lookup compares the queried bytes with the stored (minimal) serial bytes: a query with a redundant leading zero is reported not revoked by implementation and model alike; serial numbers handed out by the library's own parsers are always minimal",
     ]
     return ctx.finish(level="proof",
